@@ -1,127 +1,151 @@
 """R-TAIL-MAP: every list traversal classifies the cdr of a cell the same way:
-Cons -> continue along the spine, Null -> end of a proper list, anything else -> dotted tail."""
-from . import common, facts as F, sim
+Cons -> continue along the spine, Null -> end of a proper list, anything else -> dotted tail.
+
+The element iterators are observed through their public surface only: the iterator is obtained from
+`Value::list_iter` / `Ref::list_iter` on a structurally built cell `(a . tail)` and `next()` is evaluated
+repeatedly; the sequence of answers must be  Some(a), None  for the empty-list tail,  Some(a), None, Some(tail),
+None  for any other non-pair tail (including #nil), and  Some(a), Some(b), None  when the tail is the cell (b).
+Nothing depends on the iterators' private state types."""
+from . import alist, facts as F, sim
 from .sim import Adt, Opq, Ref, UNK
 
-
-class SynCons:
-    def __init__(self, car, cdr):
-        self.car = car
-        self.cdr = cdr
-
-    def __repr__(self):
-        return "SynCons"
+V = "value::Value"
 
 
-def _cell(v):
-    return Ref([v], 0, ())
-
-
-def value_variants(lexpr, adt_name="value::Value"):
+def _tails(lexpr):
     out = []
-    for var in lexpr.adts["value::Value"]["variants"]:
+    for var in lexpr.adts[V]["variants"]:
         if var["name"] == "Cons":
-            inner = SynCons(_cell(Adt(adt_name, 2, [Opq("b")], "Bool")), _cell(Adt(adt_name, 1, [], "Null")))
-            out.append(("Cons", Adt(adt_name, var["idx"], [inner], "Cons")))
-        else:
-            out.append((var["name"], Adt(adt_name, var["idx"], [Opq("payload")] * len(var["fields"]), var["name"])))
+            continue
+        out.append((var["name"], alist.mk(lexpr, var["name"])))
     return out
 
 
-def hook(S, fn, bb, t, args, path):
-    p = t["callee"].get("path", "")
-    d = [S._deref(a, path) for a in args]
-    if p.endswith("Cons::cdr") and d and isinstance(d[0], SynCons):
-        return ("value", d[0].cdr)
-    if p.endswith("Cons::car") and d and isinstance(d[0], SynCons):
-        return ("value", d[0].car)
-    return None
+def _observe(S, it_cell, next_fn, steps, ident):
+    """Evaluate next() `steps` times on the iterator held in it_cell[0]; returns a list of labels or None."""
+    seq = []
+    for _ in range(steps):
+        ps = [p for p in S.run(next_fn, args={1: Ref(it_cell, 0, ())}) if p.end == "return"]
+        if len(ps) != 1:
+            return seq + ["?%d" % len(ps)]
+        r = ps[0].ret
+        if not (isinstance(r, Adt) and r.adt.endswith("Option")):
+            return seq + ["?"]
+        if r.variant == 0:
+            seq.append("None")
+        else:
+            seq.append("Some(%s)" % ident(S._deref(r.fields[0], ps[0])))
+    return seq
+
+
+def _expected(lab):
+    if lab == "Null":
+        return ["Some(a)", "None", "None", "None"]
+    if lab == "Cons":
+        return ["Some(a)", "Some(b)", "None", "None"]
+    return ["Some(a)", "None", "Some(tail)", "None"]
 
 
 def cons_list_iter_map(lexpr):
-    """cons::ListIter::next from state Cons(cell): cdr kind -> resulting cursor variant."""
-    f = lexpr.fn("<cons::ListIter<'a> as std::iter::Iterator>::next")
-    cur = lexpr.adts.get("cons::ListCursor")
-    if f is None or not cur:
+    mk_iter = lexpr.fn("value::Value::list_iter")
+    nxt = lexpr.fn("<cons::ListIter<'a> as std::iter::Iterator>::next")
+    if mk_iter is None or nxt is None:
         return None
-    cnames = [v["name"] for v in cur["variants"]]
-    cons_idx = cnames.index("Cons")
-    inl = lambda a, b: b.crate == "lexpr" and b.file.endswith(("value/mod.rs", "cons.rs"))
+    inl = lambda a, b: b.crate == lexpr.name and b.file.endswith(("value/mod.rs", "cons.rs"))
     out = {}
-    for lab, cdr in value_variants(lexpr):
-        cell = SynCons(_cell(Adt("value::Value", 2, [Opq("b")], "Bool")), _cell(cdr))
-        me = Adt("cons::ListIter", 0, [Adt("cons::ListCursor", cons_idx, [_cell(cell)], "Cons")])
-        S = sim.Sim([lexpr], hooks={"call": hook}, inline=inl, max_depth=4)
-        kinds = set()
-        env_cell = [me]
-        for p in S.run(f, args={1: Ref(env_cell, 0, ())}):
-            if p.end != "return":
-                continue
-            st = env_cell[0].fields[0] if isinstance(env_cell[0], Adt) else None
-            kinds.add(cnames[st.variant] if isinstance(st, Adt) else "?")
-        out[lab] = "/".join(sorted(kinds))
+    a = alist.name_value(lexpr, "String", b"a")
+    b = alist.name_value(lexpr, "String", b"b")
+    cases = _tails(lexpr) + [("Cons", alist.cons(lexpr, b, alist.mk(lexpr, "Null")))]
+    for lab, tail in cases:
+        lst = alist.cons(lexpr, a, tail)
+        S = sim.Sim([lexpr], hooks={"call": alist.hook}, inline=inl, max_depth=6)
+        ps = [p for p in S.run(mk_iter, args={1: Ref([lst], 0, ())}) if p.end == "return"]
+        if len(ps) != 1 or not (isinstance(ps[0].ret, Adt) and ps[0].ret.variant == 1):
+            out[lab] = ["?iter"]
+            continue
+        cell = [ps[0].ret.fields[0]]
+
+        def ident(v, a=a, b=b, tail=tail):
+            return "a" if v is a else ("b" if v is b else ("tail" if v is tail else "other"))
+        out[lab] = _observe(S, cell, nxt, 4, ident)
     return out
 
 
 def datum_list_iter_map(lexpr):
-    """datum::ListIter::next from state Cons(cell, [car_meta, cdr_meta]) with Prim cdr meta: cdr kind -> cursor variant."""
-    f = lexpr.fn("<datum::ListIter<'a> as std::iter::Iterator>::next")
-    cur = lexpr.adts.get("datum::ListCursor")
+    """The same through datum::Ref::list_iter, with span information of matching shape."""
+    mk_iter = lexpr.fn("datum::Ref::<'a>::list_iter")
+    nxt = lexpr.fn("<datum::ListIter<'a> as std::iter::Iterator>::next")
     si = lexpr.adts.get("datum::SpanInfo")
-    if f is None or not cur or not si:
+    rf = lexpr.adts.get("datum::Ref")
+    if mk_iter is None or nxt is None or not si or not rf:
         return None
-    cnames = [v["name"] for v in cur["variants"]]
-    sinames = [v["name"] for v in si["variants"]]
-    cons_idx = cnames.index("Cons")
-    inl = lambda a, b: b.crate == "lexpr" and b.file.endswith(("value/mod.rs", "cons.rs"))
+    sin = {v["name"]: v["idx"] for v in si["variants"]}
+    inl = lambda a, b: b.crate == lexpr.name and b.file.endswith(("value/mod.rs", "cons.rs", "datum.rs"))
+
+    def prim():
+        return Adt("datum::SpanInfo", sin["Prim"], [Opq("span")], "Prim")
+
+    def info_cons(car_info, cdr_info):
+        # SpanInfo::Cons(Span, Box<[SpanInfo; 2]>)
+        return Adt("datum::SpanInfo", sin["Cons"], [Opq("span"), alist.boxed(sim.Tup([car_info, cdr_info]))], "Cons")
+
     out = {}
-    for lab, cdr in value_variants(lexpr):
-        if lab == "Cons":
-            continue   # a Cons cdr pairs with SpanInfo::Cons meta; the spine case
-        cell = SynCons(_cell(Adt("value::Value", 2, [Opq("b")], "Bool")), _cell(cdr))
-        prim = Adt("datum::SpanInfo", sinames.index("Prim"), [Opq("span")], "Prim")
-        meta = sim.Tup([Adt("datum::SpanInfo", sinames.index("Prim"), [Opq("span0")], "Prim"), prim])
-        me = Adt("datum::ListIter", 0, [Adt("datum::ListCursor", cons_idx, [_cell(cell), _cell(meta)], "Cons")])
-        env_cell = [me]
-        S = sim.Sim([lexpr], hooks={"call": hook}, inline=inl, max_depth=4)
-        kinds = set()
-        for p in S.run(f, args={1: Ref(env_cell, 0, ())}):
-            if p.end != "return":
-                continue
-            st = env_cell[0].fields[0] if isinstance(env_cell[0], Adt) else None
-            kinds.add(cnames[st.variant] if isinstance(st, Adt) else "?")
-        out[lab] = "/".join(sorted(kinds))
+    a = alist.name_value(lexpr, "String", b"a")
+    b = alist.name_value(lexpr, "String", b"b")
+    cases = [(lab, t, prim()) for lab, t in _tails(lexpr)]
+    cases.append(("Cons", alist.cons(lexpr, b, alist.mk(lexpr, "Null")), info_cons(prim(), prim())))
+    fnames = [f["name"] for f in rf["variants"][0]["fields"]]
+    for lab, tail, tail_info in cases:
+        lst = alist.cons(lexpr, a, tail)
+        info = info_cons(prim(), tail_info)
+        fields = []
+        for f in rf["variants"][0]["fields"]:
+            fields.append(Ref([lst], 0, ()) if "Value" in f["ty"] else Ref([info], 0, ()))
+        me = Adt("datum::Ref", 0, fields)
+        S = sim.Sim([lexpr], hooks={"call": alist.hook}, inline=inl, max_depth=6)
+        ps = [p for p in S.run(mk_iter, args={1: Ref([me], 0, ())}) if p.end == "return"]
+        if len(ps) != 1 or not (isinstance(ps[0].ret, Adt) and ps[0].ret.variant == 1):
+            out[lab] = ["?iter"]
+            continue
+        cell = [ps[0].ret.fields[0]]
+
+        def ident(v, a=a, b=b, tail=tail, S=S):
+            # the datum iterator yields Ref { value, info }
+            if isinstance(v, Adt) and v.adt == "datum::Ref" and v.fields:
+                for x in v.fields:
+                    y = x
+                    while isinstance(y, Ref):
+                        y = y.env[y.local] if not y.proj else S._read_ref(y, None)
+                    if y is a:
+                        return "a"
+                    if y is b:
+                        return "b"
+                    if y is tail:
+                        return "tail"
+            return "other"
+        out[lab] = _observe(S, cell, nxt, 4, ident)
     return out
 
 
 def check(rule, lexpr, which=("cons", "datum")):
-    want = lambda lab: "Cons" if lab == "Cons" else ("Exhausted" if lab == "Null" else "Dot")
     n = 0
-    if "cons" in which:
-        m = cons_list_iter_map(lexpr)
-        if m is None:
-            rule.anchor_missing("cons::ListIter::next / cons::ListCursor")
-        else:
-            for lab, got in sorted(m.items()):
-                n += 1
-                if got == want(lab):
-                    rule.ok("Value list iterator: cdr of kind %s -> cursor %s" % (lab, got))
-                else:
-                    rule.violation("<cons::ListIter<'a> as std::iter::Iterator>::next", "tail:%s" % lab,
-                                   "the element iterator moves to state %s when the cdr is a %s value; a Cons continues "
-                                   "the list, only the empty list ends it, every other kind is a dotted tail (expected %s)"
-                                   % (got, lab, want(lab)))
-    if "datum" in which:
-        m = datum_list_iter_map(lexpr)
-        if m is None:
-            rule.anchor_missing("datum::ListIter::next / datum::ListCursor")
-        else:
-            for lab, got in sorted(m.items()):
-                n += 1
-                if got == want(lab):
-                    rule.ok("Datum list iterator: cdr of kind %s -> cursor %s" % (lab, got))
-                else:
-                    rule.violation("<datum::ListIter<'a> as std::iter::Iterator>::next", "tail:%s" % lab,
-                                   "the datum list iterator moves to state %s when the cdr is a %s value (expected %s): it "
-                                   "no longer exposes the structure the value's own iterator exposes" % (got, lab, want(lab)))
+    for name, fnp, m in (("cons", "<cons::ListIter<'a> as std::iter::Iterator>::next", cons_list_iter_map),
+                         ("datum", "<datum::ListIter<'a> as std::iter::Iterator>::next", datum_list_iter_map)):
+        if name not in which:
+            continue
+        res = m(lexpr)
+        if res is None:
+            rule.anchor_missing("%s list iterator (list_iter / next)" % name)
+            continue
+        for lab, got in sorted(res.items()):
+            n += 1
+            want = _expected(lab)
+            what = "Value" if name == "cons" else "Datum"
+            if got == want:
+                rule.ok("%s list iterator over (a . <%s>): %s" % (what, lab, " ".join(got)))
+            else:
+                rule.violation(fnp, "tail:%s" % lab,
+                               "the %s list iterator over (a . <%s>) answers %s; a Cons continues the list, only the empty "
+                               "list ends it, every other kind (including #nil) is a dotted tail that is yielded after one "
+                               "None (expected %s)" % (what.lower(), lab, " ".join(got), " ".join(want)))
     return n
